@@ -62,7 +62,22 @@ def check(run, model, tier):
                     if d and d.startswith('self.') and 'QUEUE_SIZE' in norm(xtest[n]):
                         track = d
     if track is None:
-        raise AnalysisError('admission test `len(self.<tracking deque>) <cmp> QUEUE_SIZE` not found')
+        # the tracking deque located independently: the self attribute that receives the PostedEvent record
+        recs = [c for c in shallow_calls(f.node) if isinstance(c.func, ast.Attribute) and c.func.attr in ('append', 'appendleft') and (dotted(c.func.value) or '').startswith('self.')
+                and c.args and 'PostedEvent' in norm(expand_locals(c.args[0], f.node, params=f.params))]
+        if not recs:
+            recs = [c for c in shallow_calls(f.node) if isinstance(c.func, ast.Attribute) and c.func.attr in ('append', 'appendleft') and (dotted(c.func.value) or '').startswith('self.')
+                    and c.args and isinstance(c.args[0], ast.Name) and any(isinstance(d_, ast.AST) and 'PostedEvent' in norm(d_) for d_ in defs.get(c.args[0].id, []))]
+        captests = [n for n in g.nodes if n.kind == 'test' and 'QUEUE_SIZE' in norm(xtest[n])]
+        if recs and captests:
+            track = dotted(recs[0].func.value)
+            run.rule('ADMIT.capacity', 'the admission test compares the length of the tracking deque itself with its capacity')
+            run.inst('ADMIT.capacity', f, 'admission test measures len(%s)' % track, False,
+                     'the admission test is %s: it does not compare the length of the tracking deque %s with its capacity. The deque is bounded (maxlen = the same capacity), so when it is '
+                     'full and the test admits one more source, the post that had to be rejected fires, and the append evicts the oldest record - a source that may still be '
+                     'running and can then no longer be cancelled or stopped' % (norm(captests[0].ast), track), node=captests[0].ast, obligation=True)
+        else:
+            raise AnalysisError('admission test `len(self.<tracking deque>) <cmp> QUEUE_SIZE` not found')
     for r in raises:
         for s in starts:
             bad = g.exists_path(s, r)
